@@ -163,6 +163,9 @@ def run(ctx):
     rps = c12thread.build()
     for k, sc in enumerate(c12thread.SCRIPTS[3:6] if ctx.quick else c12thread.SCRIPTS[1:] + c12thread.SCRIPTS_MORE[:2]):
         c12thread.run_script(ctx, rps, sc, "locks%d" % k, True, 300 if ctx.quick else 3000)
+    # scheduler + thread_pool (scheduler mutex held while the pool mutex is taken): SchedulerPool.tla
+    from checks import c12pool
+    c12pool.pool_mode(ctx, scripts=c12pool.SCRIPTS[:3] if ctx.quick else None, max_paths=100 if ctx.quick else None)
     # publisher: publishing/closing/kicking on one thread against subscriber threads (PublisherConc.tla at lock grain)
     from checks import c16
     c16.conc_replay(ctx, tag="lockpub", max_paths_quick=500)
